@@ -111,7 +111,7 @@ theorem C01_step (f : Forest) (n : Bool) (op : Op) (hf : f.ok = true) :
         split
         · split
           · exact hf
-          · exact dropAll_ok f t m its hf hits
+          · exact clearAndNotify_ok f n t m its hf hits
         · split
           · exact hf
           · exact finish_ok f n _ _ hf (extendLoop_ok t _ f false hf)
@@ -269,7 +269,7 @@ theorem C01_step (f : Forest) (n : Bool) (op : Op) (hf : f.ok = true) :
         simp only [step, hfind]
         split
         · exact hf
-        · exact dropAll_ok f t m its hf hits
+        · exact clearAndNotify_ok f n t m its hf hits
   | lSort t ranks rev =>
     cases hfind : f.find? t with
     | none => simp only [step, hfind]; exact hf
@@ -281,7 +281,7 @@ theorem C01_step (f : Forest) (n : Bool) (op : Op) (hf : f.ok = true) :
         simp only [step, hfind]
         split
         · exact hf
-        · exact permute_ok f t _ (noNew_pySort ranks rev) hf
+        · exact permuteAndNotify_ok f n t its _ (noNew_pySort ranks rev) hf
   | lReverse t =>
     cases hfind : f.find? t with
     | none => simp only [step, hfind]; exact hf
@@ -293,7 +293,7 @@ theorem C01_step (f : Forest) (n : Bool) (op : Op) (hf : f.ok = true) :
         simp only [step, hfind]
         split
         · exact hf
-        · exact permute_ok f t _ noNew_reverse hf
+        · exact permuteAndNotify_ok f n t its _ noNew_reverse hf
   | dPop t k =>
     cases hfind : f.find? t with
     | none => simp only [step, hfind]; exact hf
@@ -323,11 +323,17 @@ theorem C01_step (f : Forest) (n : Bool) (op : Op) (hf : f.ok = true) :
         · split
           · exact hf
           · next k c hlast =>
-            apply addRoot_ok _ _ (mapAt_ok f t _ (erase_local t k) hf)
-            simp only [Cfg.patched, if_true]
-            have hmem : (k, c) ∈ its := List.mem_of_getLast? hlast
-            rw [okItems_mem] at hits
-            exact detachFrom_ok .dict (hits (k, c) hmem)
+            have h1 : ((f.mapAt t (fun _ xs => eraseKey k xs)).addRoot
+                (if Cfg.patched.detachOnRemove = true then detachFrom .dict c else c)).ok = true := by
+              apply addRoot_ok _ _ (mapAt_ok f t _ (erase_local t k) hf)
+              simp only [Cfg.patched, if_true]
+              have hmem : (k, c) ∈ its := List.mem_of_getLast? hlast
+              rw [okItems_mem] at hits
+              exact detachFrom_ok .dict (hits (k, c) hmem)
+            simp only
+            split
+            · exact notify_ok _ _ h1
+            · exact h1
   | dClear t =>
     cases hfind : f.find? t with
     | none => simp only [step, hfind]; exact hf
@@ -339,7 +345,7 @@ theorem C01_step (f : Forest) (n : Bool) (op : Op) (hf : f.ok = true) :
         simp only [step, hfind]
         split
         · exact hf
-        · exact dropAll_ok f t m its hf hits
+        · exact clearAndNotify_ok f n t m its hf hits
 
 /-- **Removed / replaced nodes are detached**: if no tree held by the program claims a parent, the
 same holds after every operation of `ValueFree` — in particular the values that `del`, `pop`,
@@ -444,7 +450,7 @@ theorem C01_removed_detached (f : Forest) (n : Bool) (op : Op) (hf : f.rootsFree
         simp only [step, hfind]
         split
         · exact hf
-        · exact dropAll_free f t m its hf
+        · exact clearAndNotify_free f n t m its hf
   | lSort t ranks rev =>
     cases hfind : f.find? t with
     | none => simp only [step, hfind]; exact hf
@@ -455,7 +461,7 @@ theorem C01_removed_detached (f : Forest) (n : Bool) (op : Op) (hf : f.rootsFree
         simp only [step, hfind]
         split
         · exact hf
-        · exact permute_free f t _ hf
+        · exact permuteAndNotify_free f n t its _ hf
   | lReverse t =>
     cases hfind : f.find? t with
     | none => simp only [step, hfind]; exact hf
@@ -466,7 +472,7 @@ theorem C01_removed_detached (f : Forest) (n : Bool) (op : Op) (hf : f.rootsFree
         simp only [step, hfind]
         split
         · exact hf
-        · exact permute_free f t _ hf
+        · exact permuteAndNotify_free f n t its _ hf
   | dPop t k =>
     cases hfind : f.find? t with
     | none => simp only [step, hfind]; exact hf
@@ -494,9 +500,15 @@ theorem C01_removed_detached (f : Forest) (n : Bool) (op : Op) (hf : f.rootsFree
         · split
           · exact hf
           · next k c hlast =>
-            apply addRoot_free _ _ (mapAt_free f t _ hf)
-            simp only [Cfg.patched, if_true]
-            exact detachFrom_parentless _ _
+            have h1 : ((f.mapAt t (fun _ xs => eraseKey k xs)).addRoot
+                (if Cfg.patched.detachOnRemove = true then detachFrom .dict c else c)).rootsFree = true := by
+              apply addRoot_free _ _ (mapAt_free f t _ hf)
+              simp only [Cfg.patched, if_true]
+              exact detachFrom_parentless _ _
+            simp only
+            split
+            · exact notify_free _ _ h1
+            · exact h1
   | dClear t =>
     cases hfind : f.find? t with
     | none => simp only [step, hfind]; exact hf
@@ -507,7 +519,7 @@ theorem C01_removed_detached (f : Forest) (n : Bool) (op : Op) (hf : f.rootsFree
         simp only [step, hfind]
         split
         · exact hf
-        · exact dropAll_free f t m its hf
+        · exact clearAndNotify_free f n t m its hf
 
 
 /-! ## Histories -/
